@@ -382,6 +382,11 @@ def error_cases(tmp):
     add("config-toml-syntax", ["-c", toml_bad, good], {}, {"config_ok": False}, "config")
     add("config-top-level-list", ["-c", yaml_list, good], {}, {"config_ok": False}, "config")
     add("config-top-level-string", ["-c", yaml_str, good], {}, {"config_ok": False}, "config")
+    # falsy documents that are not a mapping either (seeded change C03-m4: `safe_load(f) or {}` turned them into an empty mapping)
+    for i, doc in enumerate(["[]\n", "false\n", "0\n", "0.0\n", '""\n', "~\n", "# only a comment\n"]):
+        yf = w("falsy%d.yaml" % i, doc)
+        add("config-falsy-nonmapping-%d" % i, ["-c", yf, good], {}, {"config_ok": False}, "config")
+        add("config-falsy-nonmapping-%d-clean-target" % i, ["-c", yf, clean], {}, {"config_ok": False}, "config")
     add("baseline-missing", ["-b", missing + ".json", "-f", "json", good], {"baseline": True, "format": "json"}, {"baseline_readable": False}, "baseline_unreadable")
     add("baseline-is-directory", ["-b", os.path.join(tmp, "cfgdir"), "-f", "txt", good], {"baseline": True, "format": "txt"}, {"baseline_readable": False}, "baseline_unreadable")
     for fmt in ("csv", "xml", "yaml", "sarif"):
